@@ -193,19 +193,33 @@ func goid() uint64 {
 	return id
 }
 
+// freePorts hands out ports from a range below the kernel's ephemeral range, starting at a cursor derived from the
+// process id: two harness processes running at the same time (two checks in parallel) then use different ports, and no
+// outgoing connection of any process can take one between this test-bind and the server's own bind.
+var portCursor = 10000 + (os.Getpid()*7919)%20000
+
 func freePorts(n int) ([]int, error) {
-	var ls []net.Listener
 	var ps []int
-	for i := 0; i < n; i++ {
-		l, err := net.Listen("tcp", "127.0.0.1:0")
-		if err != nil {
-			return nil, err
+	for tries := 0; len(ps) < n && tries < 5000; tries++ {
+		p := portCursor
+		portCursor++
+		if portCursor >= 30000 {
+			portCursor = 10000
 		}
-		ls = append(ls, l)
-		ps = append(ps, l.Addr().(*net.TCPAddr).Port)
-	}
-	for _, l := range ls {
+		l, err := net.Listen("tcp", "127.0.0.1:"+strconv.Itoa(p))
+		if err != nil {
+			continue
+		}
 		l.Close()
+		l2, err := net.Listen("tcp", ":"+strconv.Itoa(p)) // servers bind the wildcard address
+		if err != nil {
+			continue
+		}
+		l2.Close()
+		ps = append(ps, p)
+	}
+	if len(ps) < n {
+		return nil, fmt.Errorf("no free ports")
 	}
 	return ps, nil
 }
